@@ -1,7 +1,9 @@
 (* C02 - Cache restores are indistinguishable from building.
    The engine model with the directory cache switched on: retrieve by (label, rule key, source key) before
    running the command, store after moveOutputs.  Refuted by the directory-hash defect (the stale directory
-   is stored under the new key), proved for histories without directory outputs. *)
+   is stored under the new key), proved for histories without directory outputs.  The cache of targets with
+   output_dirs (metadata under the old key, artifacts under the new one) is NOT modelled: the theorems are about
+   histories without such targets (od_free). *)
 (* Proof.Engine_Gen: the record layout / needsBuilding order / cache-key parts regenerated from the source *)
 From PlzV Require Import Proof.Engine_Gen.
 From PlzV Require Import Base.Harness Model.Engine Model.C01 Proof.Engine Proof.C03 Proof.C01.
@@ -11,7 +13,7 @@ Definition C02_statement : Prop :=
      directory), a build with the cache enabled has the exit class and, for every target it built, exactly the
      outputs of a from-scratch build of the same tree without cache *)
   (forall (h : list hstep) (r : repo) (req : list str),
-     wf_history (h ++ [HBuild true r req]) ->
+     wf_history (h ++ [HBuild true r req]) -> od_free (h ++ [HBuild true r req]) ->
      let cached := plz_build true r req (run_history h empty_store) in
      let clean := plz_build false r req empty_store in
      run_ok cached = run_ok clean
@@ -20,8 +22,8 @@ Definition C02_statement : Prop :=
   (* nothing is restored unless an entry exists under exactly the current (label, rule key, source key):
      otherwise the command runs *)
   /\ (forall r rn t sk, needs_build r (rn_st rn) t = true -> source_key r (rn_st rn) t = Some sk ->
-        s_cache (rn_st rn) (t_label t) (t_defkey t, sk) = None ->
-        build_rule true r rn t = run_action true r rn t (t_defkey t, sk)).
+        s_cache (rn_st rn) (t_label t) ((t_defkey t, []), sk) = None ->
+        build_rule true r rn t = run_action true r rn t ((t_defkey t, []), sk)).
 
 (* Witness (cache poisoning): build tree A (d copies a.txt into d_dir), build tree B (the file renamed to
    b.txt: moveOutput keeps the old directory, storeInCache stores it under B's key), rm -rf plz-out, build B:
@@ -33,7 +35,9 @@ Proof.
   assert (Hwf : wf_history ([HBuild true wit_r1 [s "//p:d"]; HBuild true wit_r2 [s "//p:d"]; HWipe] ++ [HBuild true wit_r2 [s "//p:d"]])).
   { split; [vm_compute; reflexivity|].
     intros t t' [<-|[<-|[<-|[]]]] [<-|[<-|[<-|[]]]] E; try reflexivity; vm_compute in E; discriminate E. }
-  destruct (H Hwf) as [_ Ho].
+  assert (Hod : od_free ([HBuild true wit_r1 [s "//p:d"]; HBuild true wit_r2 [s "//p:d"]; HWipe] ++ [HBuild true wit_r2 [s "//p:d"]])).
+  { intros t Ht. cbn in Ht. destruct Ht as [<-|[<-|[<-|[]]]]; reflexivity. }
+  destruct (H Hwf Hod) as [_ Ho].
   specialize (Ho (wit_target [s "b.txt"] (s "k2"))).
   assert (Hin : In (wit_target [s "b.txt"] (s "k2")) (r_targets (restrict wit_r2 [s "//p:d"]))) by (vm_compute; left; reflexivity).
   assert (Hnf : ~ In (t_label (wit_target [s "b.txt"] (s "k2"))) (rn_failed (plz_build false wit_r2 [s "//p:d"] empty_store))) by (vm_compute; tauto).
@@ -44,7 +48,7 @@ Print Assumptions C02_refuted.
 (* Partial: histories in which no action outputs a directory (executable classifier defect_class). *)
 Theorem C02_partial :
   (forall (h : list hstep) (r : repo) (req : list str),
-     wf_history (h ++ [HBuild true r req]) ->
+     wf_history (h ++ [HBuild true r req]) -> od_free (h ++ [HBuild true r req]) ->
      (forall t, In t (history_targets (h ++ [HBuild true r req])) -> defect_class t = None) ->
      let cached := plz_build true r req (run_history h empty_store) in
      let clean := plz_build false r req empty_store in
@@ -53,11 +57,14 @@ Theorem C02_partial :
      /\ forall t, In t (r_targets (restrict r req)) -> ~ In (t_label t) (rn_failed clean) ->
         outs_of (rn_st cached) t = outs_of (rn_st clean) t)
   /\ (forall r rn t sk, needs_build r (rn_st rn) t = true -> source_key r (rn_st rn) t = Some sk ->
-        s_cache (rn_st rn) (t_label t) (t_defkey t, sk) = None ->
-        build_rule true r rn t = run_action true r rn t (t_defkey t, sk)).
+        s_cache (rn_st rn) (t_label t) ((t_defkey t, []), sk) = None ->
+        build_rule true r rn t = run_action true r rn t ((t_defkey t, []), sk)).
 Proof.
-  split; [exact (incremental_is_clean_files true)|].
-  intros r rn t sk Hnb Hsk Hc. unfold build_rule. rewrite Hnb, Hsk. cbn [negb]. rewrite Hc. reflexivity.
+  split.
+  - intros h r req Hwf Hod Hdf.
+    destruct (incremental_is_clean_files true h r req Hwf Hdf (od_free_quiet _ _ Hod)) as (H1 & H2 & H3).
+    split; [exact H1|]. split; [exact H2|]. intros t Ht Hnf. apply (H3 t Ht Hnf).
+  - intros r rn t sk Hnb Hsk Hc. unfold build_rule. rewrite Hnb, Hsk. cbn [negb]. rewrite Hc. reflexivity.
 Qed.
 Print Assumptions C02_partial.
 
@@ -68,16 +75,20 @@ Theorem C02_partial_path_inj :
     (forall t t', U t -> U t' -> t_defkey t = t_defkey t' -> t = t') ->
     (forall a b, good a -> good b -> stream a = stream b -> a = b) ->
     (forall c, good (File false c)) ->
-    (forall t ins news, U t -> Forall good (map snd ins) -> act (t_kind t) (outputs t) ins = Some news -> Forall good (map snd news)) ->
+    (forall t ins news, U t -> Forall good (map snd ins) -> result t ins = Some news -> Forall good (map snd news)) ->
     forall h r req,
-      forallb step_wf (h ++ [HBuild true r req]) = true ->
+      forallb step_wf (h ++ [HBuild true r req]) = true -> od_free (h ++ [HBuild true r req]) ->
       (forall t, In t (history_targets (h ++ [HBuild true r req])) -> U t) ->
       let cached := plz_build true r req (run_history h empty_store) in
       let clean := plz_build false r req empty_store in
       rn_failed cached = rn_failed clean
       /\ forall t, In t (r_targets (restrict r req)) -> ~ In (t_label t) (rn_failed clean) ->
          outs_of (rn_st cached) t = outs_of (rn_st clean) t.
-Proof. intros U good H1 H2 H3 H4. exact (incremental_is_clean U good H1 H2 H3 H4 true). Qed.
+Proof.
+  intros U good H1 H2 H3 H4 h r req Hwf Hod HU.
+  destruct (incremental_is_clean U good H1 H2 H3 H4 true h r req Hwf HU (od_free_quiet _ _ Hod)) as [Hf Ho].
+  split; [exact Hf|]. intros t Ht Hnf. apply (Ho t Ht Hnf).
+Qed.
 Print Assumptions C02_partial_path_inj.
 
 (* Non-vacuity: A, B (a.txt edited), rm -rf plz-out, A again: the hypotheses of C02_partial hold and the last
@@ -89,6 +100,7 @@ Definition nv_rB : repo := mkR [(s "p/a.txt", s "9"); (s "p/b.txt", s "2")] [nv_
 Definition nv_h : list hstep := [HBuild true nv_rA [s "//p:b"]; HBuild true nv_rB [s "//p:b"]; HWipe].
 Example C02_nonvacuous :
   wf_history (nv_h ++ [HBuild true nv_rA [s "//p:b"]])
+  /\ od_free (nv_h ++ [HBuild true nv_rA [s "//p:b"]])
   /\ (forall t, In t (history_targets (nv_h ++ [HBuild true nv_rA [s "//p:b"]])) -> defect_class t = None)
   /\ rn_log (plz_build true nv_rA [s "//p:b"] (run_history nv_h empty_store)) = []
   /\ outs_of (rn_st (plz_build true nv_rA [s "//p:b"] (run_history nv_h empty_store))) nv_b = [(s "b.out", Some (File false (s "12")))]
@@ -97,6 +109,7 @@ Proof.
   split; [split; [vm_compute; reflexivity|]|].
   - intros t t' Ht Ht' E. cbn in Ht, Ht'.
     destruct Ht as [<-|[<-|[<-|[<-|[<-|[<-|[]]]]]]], Ht' as [<-|[<-|[<-|[<-|[<-|[<-|[]]]]]]]; try reflexivity; vm_compute in E; discriminate E.
-  - split; [|vm_compute; repeat split].
-    intros t Ht. cbn in Ht. destruct Ht as [<-|[<-|[<-|[<-|[<-|[<-|[]]]]]]]; reflexivity.
+  - split; [|split; [|vm_compute; repeat split]].
+    + intros t Ht. cbn in Ht. destruct Ht as [<-|[<-|[<-|[<-|[<-|[<-|[]]]]]]]; reflexivity.
+    + intros t Ht. cbn in Ht. destruct Ht as [<-|[<-|[<-|[<-|[<-|[<-|[]]]]]]]; reflexivity.
 Qed.
